@@ -602,6 +602,30 @@ def run_scenario(st, seed, only=None):
     import faulthandler
     if st.get('stackf') is not None:
         faulthandler.dump_traceback_later(6, repeat=False, file=st['stackf'])
+    # signal noise: a periodic SIGALRM with a handler that does nothing; whichever thread's
+    # lock wait the kernel interrupts must go on waiting (a wait that gives up and carries on
+    # as if it held the lock runs a second initializer)
+    import signal
+    sig_noise = random.Random(seed ^ 0x51a).random() < 0.3 and \
+        threading.current_thread() is threading.main_thread()
+    noise_stop = [False]
+    if sig_noise:
+        signal.signal(signal.SIGALRM, lambda *a: None)
+        signal.setitimer(signal.ITIMER_REAL, 0.002, 0.0015)
+        stat('scenarios_with_signal_noise')
+
+        def noise():
+            # also aimed at the worker threads themselves: a lock wait inside init_once is
+            # interrupted in the thread that waits
+            while not noise_stop[0]:
+                for th in threads:
+                    if th.ident is not None and th.is_alive():
+                        try:
+                            signal.pthread_kill(th.ident, signal.SIGALRM)
+                        except (OSError, RuntimeError):
+                            pass
+                time.sleep(0.0002)
+        threading.Thread(target=noise, daemon=True).start()
     for th in threads:
         th.start()
     tids = [threading.main_thread().native_id] + [th.native_id for th in threads]
@@ -649,6 +673,9 @@ def run_scenario(st, seed, only=None):
             verdict = 'watchdog'
             break
         alive[0][1].join(0.05 if now - t_start < 2 else 0.25)
+    noise_stop[0] = True
+    if sig_noise:
+        signal.setitimer(signal.ITIMER_REAL, 0)
     heartbeat(st, seed, impl, 0, tids[:1])
     if st.get('stackf') is not None:
         faulthandler.cancel_dump_traceback_later()
